@@ -394,8 +394,11 @@ func genHistory(t *rapid.T, maxOps int) c12Case {
 				continue
 			}
 			fix := sortedKeys(broken)[rapid.IntRange(0, len(broken)-1).Draw(t, l+"-fix")]
-			op = c12Fix(&w, fix)
 			delete(broken, fix)
+			if w.Ent(fix) == nil {
+				continue // removed in the meantime
+			}
+			op = c12Fix(&w, fix)
 		case 17:
 			// the same extensions in another order
 			if len(e.Extensions) < 2 || extEqual(e.Extensions[0], e.Extensions[len(e.Extensions)-1]) {
@@ -496,6 +499,7 @@ func genHistory(t *rapid.T, maxOps int) c12Case {
 				continue
 			}
 			op = hOp{Kind: "remove-leaf", Ent: alias}
+			delete(broken, alias)
 			for i := range w.Ents {
 				if w.Ents[i].EffAlias() == alias {
 					w.Ents = append(w.Ents[:i:i], w.Ents[i+1:]...)
